@@ -691,7 +691,13 @@ def book_x(ctx, label, case, res, j):
     ctx.traces_validated += 1
     if j is not None:
         key, text, _ = j
-        if case["kind"] == "multi":
+        if case["kind"] == "life":
+            what = "scan_result rows of a UDSScanner run through entry_point(): " + text
+            impl = {"rows": res["rows"], "flag_events": res["flag_events"], "warnings": res["warnings"][:5], "end": res["end"]}
+            model = {"calls": [{k: v for k, v in c.items() if k in ("task", "k", "req_pdu", "scanner_flag", "implicit", "analyze", "out")}
+                               for c in res["calls"]]}
+            site = "UDSScanner.setup / implicit_logging setter / ECU._request"
+        elif case["kind"] == "multi":
             what = "scan_result rows differ from the exchanges on the wire (several producers): " + text
             impl = {"rows": res["rows"], "events": res["events"], "warnings": res["warnings"][:5], "end": res["end"]}
             model = {"calls": res["calls"]}
@@ -711,6 +717,7 @@ def compare_model(ctx, pending):
     from lib import c11x
     c11x.compare_multi(ctx, [(c, r) for (c, r) in pending if c.get("kind") == "multi"])
     c11x.compare_tables(ctx, [(c, r) for (c, r) in pending if c.get("kind") == "tables"])
+    c11x.compare_life(ctx, [(c, r) for (c, r) in pending if c.get("kind") == "life"])
     pending = [(c, r) for (c, r) in pending if not c.get("kind")]
     batch, index = [], []
     for case, res in pending:
@@ -896,6 +903,7 @@ def gen_cases(ctx):
     cases = []
     # 0. several producers behind the client mutex, write faults, the other tables (harness/lib/c11x.py)
     from lib import c11x
+    cases += c11x.gen_life(ctx, K)
     cases += c11x.gen_multi(ctx, K)
     cases += c11x.gen_tables(ctx)
     # 1. every kind x every outcome class, alone (exhaustive over the two tables)
@@ -1005,7 +1013,7 @@ def run(ctx):
 
 def replay(ctx, rec):
     case = rec.get("case") or rec
-    if case.get("kind") in ("multi", "tables"):
+    if case.get("kind") in ("multi", "tables", "life"):
         from lib import c11x
         _env()
         res = c11x.run_case(case)
